@@ -121,11 +121,17 @@ func gen(max int) (*gstate, int) {
 			t := hx.XTok{Kind: hx.XStart, Local: symLocal()}
 			m := map[string]string{}
 			// declarations: none | default | default undeclared | p | default+p
-			nDecl := 4
+			nDecl := 5
 			if nd.Tier() > 0 {
-				nDecl = 5
+				nDecl = 6
 			}
-			switch nd.Choice(nDecl) {
+			switch []int{0, 1, 2, 3, 5, 4}[nd.Choice(nDecl)] {
+			case 5:
+				// the xml prefix may be declared explicitly (with its fixed URI),
+				// after another declaration
+				u := symURI()
+				t.Decls = append(t.Decls, hx.XDecl{Prefix: "p", URI: u}, hx.XDecl{Prefix: "xml", URI: xmlNS})
+				m["p"] = u
 			case 1:
 				u := symURI()
 				t.Decls = append(t.Decls, hx.XDecl{Prefix: "", URI: u})
